@@ -12,7 +12,7 @@ META = {
                  "peek_type's own contract for byte 0xFF; R07.3 the TAG arm skips the enclosed item; R07.4 read_int "
                  "consumes 1/2/4/8 bytes big-endian for ai 24..27 and every reader rejects exactly the reserved ai values "
                  "(tabulated over all 32 ai values with a concrete mini-evaluator of the guards); R07.5 every reader "
-                 "takes its head through read_cbor_type. R07.1/R07.3 tabulate skip_item per (major type, class of additional information); R07.4 tracks input byte -> bit position; R07.8 is R03.8 on the decoder. R07.6 also tabulates read_array_start / read_map_start over 8 major types x 32 additional-information values: returned count, and the indefinite-length flag stored on every accepting path. R07.4 tabulates read_int per additional-information value over every path through the function and every way the argument can be split across refills (assembly.py: integer locals concrete, input bytes as byte-index -> bit-position maps, the window size chosen exhaustively); each returning path must yield the RFC 8949 big-endian layout and consume exactly the argument. Where that walk meets a construct it does not model, every alternative assembly loop (a fast path over buffered bytes, the byte-by-byte path) is analysed separately; window-state branches select the alternative. R07.9: the string read_string returns is only ever extended (no assign / = / clear). R07.10 = R05.5. R07.11 = R05.2 (every read through the cursor and every move of it stays inside the window: where an item lies relative to the 64 KiB refills does not change what is decoded). R07.12 = R05.6. R07.1 evaluates constant rule tables indexed by the major type and counted loops in skip_item's dispatch. R07.4 reports a path on which read_int reads or moves beyond the buffered bytes with the window sizes of that path. R07.2 also decides the polarity of every stop-code test that controls a read_break(): the call is reached where the test says the next byte IS the stop code (then / else branch, or the exit of a `while (peek != BREAK)` loop). R07.13: the explicit work stack of skip_item - read_break() only for a level flagged indefinite and followed by a pop in the same list, a definite level popped under count == 0 and counted down otherwise, every `continue` in front of the head preceded by a pop; a different discipline (count written elsewhere in the loop) is unrecognised, the recursive form has no such obligations.",
+                 "takes its head through read_cbor_type. R07.1/R07.3 tabulate skip_item per (major type, class of additional information); R07.4 tracks input byte -> bit position; R07.8 is R03.8 on the decoder. R07.6 also tabulates read_array_start / read_map_start over 8 major types x 32 additional-information values: returned count, and the indefinite-length flag stored on every accepting path. R07.4 tabulates read_int per additional-information value over every path through the function and every way the argument can be split across refills (assembly.py: integer locals concrete, input bytes as byte-index -> bit-position maps, the window size chosen exhaustively); each returning path must yield the RFC 8949 big-endian layout and consume exactly the argument. Where that walk meets a construct it does not model, every alternative assembly loop (a fast path over buffered bytes, the byte-by-byte path) is analysed separately; window-state branches select the alternative. R07.9: the string read_string returns is only ever extended (no assign / = / clear). R07.10 = R05.5. R07.11 = R05.2 (every read through the cursor and every move of it stays inside the window: where an item lies relative to the 64 KiB refills does not change what is decoded). R07.12 = R05.6. R07.1 evaluates constant rule tables indexed by the major type and counted loops in skip_item's dispatch. R07.4 reports a path on which read_int reads or moves beyond the buffered bytes with the window sizes of that path. R07.2 also decides the polarity of every stop-code test that controls a read_break(): the call is reached where the test says the next byte IS the stop code (then / else branch, or the exit of a `while (peek != BREAK)` loop). R07.13: the explicit work stack of skip_item - read_break() only for a level flagged indefinite and followed by a pop in the same list, a definite level popped under count == 0 and counted down otherwise, every `continue` in front of the head preceded by a pop; a different discipline (count written elsewhere in the loop) is unrecognised, the recursive form has no such obligations. R07.14: read_cbor_type on every returning path stores m_p[0] & 0xE0 and m_p[0] & 0x1F before the cursor moves, and the cursor moves exactly once by one byte. R07.9 also: a statement list of read_string (or a private helper that gets its result) that moves the cursor has appended the bytes under it to the result first.",
     "explanation": "Structural/necessary conditions decided from the decoder's source: exhaustiveness of the dispatch, "
                    "caller/callee belief agreement on the stop code, finite tabulation of the additional-information "
                    "domain. Does not decide value equality for all encodings beyond the width table.",
@@ -1237,6 +1237,106 @@ def check_skip_bookkeeping(run, rule):
     run.info["skip_item_form"] = "explicit work stack %s {%s, %s}" % (sname, COUNT, FLAG)
 
 
+def check_head_consumed(run, rule):
+    """R07.14: read_cbor_type(type, ai) takes the head apart and consumes it: on every returning path the major type is
+    `m_p[0] & 0xE0`, the additional information `m_p[0] & 0x1F`, both read before the cursor moves, and the cursor moves
+    exactly once, by one byte.  (Where the head is taken apart in place instead, R07.5 / the tabulations own it.)"""
+    facts = run.facts
+    fs = [f for f in facts.fns("CDNS::CdnsDecoder::read_cbor_type") if f.get("body") is not None and len(f.get("params", [])) == 2]
+    if not fs:
+        run.info["read_cbor_type"] = "not a two-out-parameter function on this tree"
+        return
+    f = fs[0]
+    from . import C05 as _C05
+    pths = _C05._paths(ir.stmts(f["body"]))
+    if pths is None:
+        run.ob(rule, "read_cbor_type:consumes-the-head", None, f, f["line"], "read_cbor_type is not loop-free")
+        return
+    tp, ap = "p:%s" % f["params"][0]["n"], "p:%s" % f["params"][1]["n"]
+    n = 0
+    for pth in pths:
+        if pth and pth[-1][0] == "throw":
+            continue
+        n += 1
+        seq = []
+        for ev in pth:
+            if ev[0] not in ("stmt", "return"):
+                continue
+            for x in ir.walk(ev[1]):
+                if decoder.is_mp_move(x):
+                    step = 1 if (x.get("k") == "Un" and x.get("op") in ("post++", "pre++")) or (x.get("k") == "Bin" and x.get("op") == "+=" and const_value(x.get("rhs")) == 1) else None
+                    seq.append(("move", step, x.get("l", 0)))
+                if x.get("k") == "Bin" and x.get("op") == "=" and path(x.get("lhs")) in ((tp,), (ap,)):
+                    mask = off = None
+                    for y in ir.walk(x.get("rhs")):
+                        if y.get("k") == "Bin" and y.get("op") == "&":
+                            for a_, b_ in ((y["lhs"], y["rhs"]), (y["rhs"], y["lhs"])):
+                                d_ = decoder.is_mp_deref(unwrap_all_casts(a_))
+                                if d_ is not None and const_value(b_) is not None:
+                                    mask, off = const_value(b_), d_[1]
+                    seq.append(("load", path(x["lhs"])[0], mask, off, x.get("l", 0)))
+        moves = [e for e in seq if e[0] == "move"]
+        loads = {e[1]: e for e in seq if e[0] == "load"}
+        first_move = seq.index(moves[0]) if moves else len(seq)
+        problems = []
+        if len(moves) != 1 or moves[0][1] != 1:
+            problems.append("the cursor moves %s" % ("%d times" % len(moves) if len(moves) != 1 else "by something other than one byte"))
+        for prm, want, what in ((tp, 0xE0, "major type"), (ap, 0x1F, "additional information")):
+            e = loads.get(prm)
+            if e is None:
+                problems.append("the %s is not stored" % what)
+            elif e[2] != want or e[3] != 0:
+                problems.append("the %s is taken as m_p[%s] & 0x%X instead of m_p[0] & 0x%X" % (what, e[3], e[2] if e[2] is not None else 0, want))
+            elif seq.index(e) > first_move:
+                problems.append("the %s is read after the cursor moved (from the byte after the head)" % what)
+        run.ob(rule, "read_cbor_type:consumes-the-head#%d" % n, not problems, f, f["line"],
+               "type = m_p[0] & 0xE0, ai = m_p[0] & 0x1F, then the cursor moves on by one" if not problems else "; ".join(problems))
+
+
+def check_string_bytes_kept(run, rule):
+    """read_string keeps every byte it takes: a statement list that moves the cursor (`m_p++`, `m_p += n`) also appends the
+    bytes under it to a string first (`push_back(m_p[0])`, `append(m_p, n)` ..).  Looked at in read_string and in the private
+    helpers of the decoder it hands its result to."""
+    facts = run.facts
+    f0 = dfn(facts, "read_string", rule)
+    fns = [f0]
+    for c in ir.calls_in(f0["body"]):
+        cal = c.get("callee") or {}
+        if cal.get("cls") == DEC and cal.get("access") not in (0, None) and any("basic_string" in (t or "") and t.rstrip().endswith("&") and not t.startswith("const") for t in cal.get("sig", [])):
+            fns += [g for g in facts.fns(cal.get("qn")) if g.get("body") is not None and g not in fns]
+    n = 0
+    for f in fns:
+        for b in ir.walk(f["body"]):
+            lst = b.get("s") if b.get("k") == "Block" else None
+            if not lst:
+                continue
+            for i, st in enumerate(lst):
+                u = unwrap(st)
+                if not (isinstance(u, dict) and decoder.is_mp_move(u)):
+                    continue
+                n += 1
+
+                def appends(y):
+                    for x in ir.walk(y):
+                        if x.get("k") == "MCall" and callee_name(x) in ("push_back", "append", "insert", "assign") and "basic_string" in ((x.get("callee") or {}).get("cls") or ""):
+                            if any(decoder.is_mp_deref(z) is not None or path(z) == ("this", "m_p") for a in x.get("args", []) for z in ir.walk(a)):
+                                return True
+                        if x.get("k") == "OpCall" and x.get("op") == "+=" and "basic_string" in ((x.get("callee") or {}).get("cls") or ""):
+                            if any(decoder.is_mp_deref(z) is not None for a in x.get("args", [])[1:] for z in ir.walk(a)):
+                                return True
+                    return False
+                before = any(appends(y) for y in lst[:i])
+                if before:
+                    ok = True
+                else:
+                    ok = None if appends(f["body"]) and any(appends(y) for y in lst[i + 1:]) else False
+                run.ob(rule, "%s:bytes-kept@%s" % (f["qn"].split("::")[-1], u.get("l", 0)), ok, f, u.get("l", 0),
+                       "the bytes the cursor passes were appended to the result first" if ok else
+                       "the cursor moves past input bytes that no statement of this list appended to the result: part of the string's content is dropped" if ok is False else
+                       "the append follows the cursor move in this list: not decided")
+    run.info["string_cursor_moves"] = n
+
+
 def check(run):
     from . import C05
     C05.check_window_state(run, "R07.10")       # a stale peek answers for the wrong item
@@ -1244,6 +1344,7 @@ def check(run):
     _derived.report(run, "R07.12", ["CDNS::CdnsDecoder", "CDNS::CdnsReader"])
     C05.check_typestate(run, "R07.11")          # bytes are taken from inside the window only: an item that straddles a refill decodes like any other
     check_string_accumulates(run, "R07.9")
+    check_string_bytes_kept(run, "R07.9")
     check_skip(run, "R07.1", "R07.3")
     check_skip_bookkeeping(run, "R07.13")
     # the level stack of skip_item: a reference to the innermost level must not be used after the stack grew (the count of
@@ -1253,6 +1354,7 @@ def check(run):
     check_stop_agreement(run, "R07.2")
     check_read_int(run, "R07.4")
     check_heads(run, "R07.5")
+    check_head_consumed(run, "R07.14")
     check_values(run, "R07.6")
     from .. import ranges
     for f in decoder.dec_fns(run.facts):
